@@ -65,6 +65,11 @@ func (e *SeqArrowExpr) Eval(ctx context.Context, local Scope) (_ Value, err erro
 	case String: //nolint:dupl
 		runes := make([]rune, len(value.s))
 		for at, char := range value.s {
+			if char < 0 {
+				// a hole is not a member: leave it alone
+				runes[at] = char
+				continue
+			}
 			newChar, err := call(NewNumber(float64(value.offset+at)), NewNumber(float64(char)))
 			if err != nil {
 				return nil, WrapContextErr(err, e, local)
